@@ -2,8 +2,8 @@
 From Coq Require Import Arith List String.
 From FEC Require Import Models.PackingM Models.LayoutM Generated.LayoutCpp Generated.LayoutPyProbe Generated.LayoutExc.
 
-Definition c02_layout_mismatches : list row :=
-  layout_mismatches cpp_layouts layout_exceptions cpp_layouts py_layouts.
+Definition c02_layout_mismatches : list (string * row) :=
+  paths_mismatches cpp_layouts layout_exceptions cpp_layouts py_layouts py_layout_paths.
 Definition c02_readme_violations : list string :=
   map s_name (filter (fun s => negb (follows_readme s)) cpp_layouts).
 Definition c02_float_violations : list string :=
